@@ -290,7 +290,13 @@ func evalOp(f []string) string {
 	wd := unhx(f[2])
 	path := unhx(f[3])
 	fs := newFS(tree, wd)
-	switch f[0] {
+	kind := f[0]
+	if kind == "cfind" || kind == "cstat" || kind == "copen" {
+		// the production path: a view created at the root, then ChangeDir(wd) (which stores wd as given)
+		fs = newFS(tree, "").ChangeDir(wd)
+		kind = kind[1:]
+	}
+	switch kind {
 	case "find":
 		fn, dn, ln, err := fs.FindNode(path)
 		switch {
@@ -328,7 +334,7 @@ func evalOp(f []string) string {
 			return "err"
 		}
 		st, _ := fl.Stat()
-		if f[0] == "open" {
+		if kind == "open" {
 			if d, ok := fl.(iofs.ReadDirFile); ok && st.IsDir() {
 				es, err := d.ReadDir(-1)
 				return "dir:" + infoStr(st) + ";" + entriesStr(es, err)
@@ -784,7 +790,7 @@ func flushQueue(r *lib.Run) {
 func wellShaped(op string) bool {
 	f := strings.Split(op, " ")
 	switch f[0] {
-	case "find", "stat", "open":
+	case "find", "stat", "open", "cfind", "cstat", "copen":
 		return len(f) == 4
 	case "readdir":
 		return len(f) == 6
@@ -1080,6 +1086,10 @@ func main() {
 			runOp(r, "find "+ts+" "+hx(wd)+" "+hx(p))
 			runOp(r, "stat "+ts+" "+hx(wd)+" "+hx(p))
 			runOp(r, "open "+ts+" "+hx(wd)+" "+hx(p))
+			if g.Chance(30) {
+				cwd := lib.Pick(g, []string{"", ".", "a", "sub", "a/b", "./a", "a/", "..", "/"})
+				runOp(r, lib.Pick(g, []string{"cfind", "cstat", "copen"})+" "+ts+" "+hx(cwd)+" "+hx(p))
+			}
 			if g.Chance(25) {
 				runOp(r, fmt.Sprintf("readdir %s %s %s %d %d", ts, hx(wd), hx(p), lib.Pick(g, []int{-1, 0, 1, 2, 3, 5}), 1+g.Intn(3)))
 			}
